@@ -22,7 +22,7 @@ CHECKS.update({
         text="Every discovered form of NOT/AND/OR/XOR (28 per type: named, in-place, operator traits by value/reference, compound assignment) is run on tables of symbolic bits for each n: the result equals a(m) op b(m) at every position (NOT re-masked above 2^n), has the right size, and borrowed operands are unchanged - for all table contents at once. Sibling forms agree because each equals the same specification; a per-operator form count guards against vacuity. Forms taking two shared references are also run with both references to one object.",
         note="Trusted: " + TB + ". n in 0..12 (quick) / StaticLut 0..12 and Lut 0..14 (thorough), loops unrolled per n. Operand tables assumed well formed (C02); size mismatches are C17."),
     "C02": dict(cat="proof", ref="3 C02", technique="ownership rule on ADT field visibility + inductive invariant proved per public producer by bit-granular abstract interpretation of MIR (unused bits constant 0, block count) + abstract summary of eq/cmp",
-        text="Inductive invariant over all API histories: the representation fields are private to their module (rustc privacy), and every externally reachable body of those modules that returns or mutates a table is shown, on well-formed symbolic inputs and a partition of valid arguments, to hand back tables with table_size(n) blocks, the right num_vars and constant-0 bits at positions >= 2^n; derived/abstractly summarised eq, hash and cmp compare exactly the representation.",
+        text="Inductive invariant over all API histories: the representation fields are private to their module (rustc privacy), and every externally reachable body of those modules that returns or mutates a table is shown, on well-formed symbolic inputs and a partition of valid arguments, to hand back tables with table_size(n) blocks, the right num_vars and constant-0 bits at positions >= 2^n; derived/abstractly summarised eq, hash and cmp compare exactly the representation. Producers outside those modules (the Sop/Esop/Soes conversions, which reach a table only through the public API) are interpreted on windows of real terms: every result bit at a position >= 2^n is 0 for every choice of terms; any other outside caller of from_blocks is reported undecided.",
         note="Trusted: " + TB + "; rustc privacy checking. from_blocks exempt by its stated precondition (checked to copy verbatim). Canonization producers use join-at-top for the data-dependent comparisons. n in 0..6 (quick) / 0..8 (thorough); a dynamic Lut handed to a generic StaticLut<N,T> impl (TryFrom) is run for every pair (n_in, N)."),
     "C06": dict(cat="proof", ref="3 C06", technique="abstract interpretation of MIR to path-condition/class pairs over clause-set Booleans; uniform-pair-predicate abstraction and exhaustive comparison with the statement's decision list",
         text="top_decomposition, is_pos_unate and is_neg_unate are run on a symbolic table for every (n, v): each path yields (condition, class). For n <= 3 the summary is compared with the statement on all tables; for n >= 4 every condition is shown to be the same per-position predicate on (c0,c1) at all 2^(n-1) positions and the decision is compared with the statement on all 15 non-empty value-pair sets. A refutation is a concrete table with the wrong class.",
@@ -44,13 +44,13 @@ CHECKS.update({
         text="Along the path where no comparison succeeds the returned certificate is the identity; along the path where exactly the k-th comparison succeeds the returned table is the k-th visited table and the returned (perm, mask) maps the symbolic input to it by the statement's formula, perm a permutation and mask without bits above n - for every comparison index k (sampled for the longest walks in the quick tier), every n in range, both types. On tables with at most 8 symbolic bits the returned certificate, replayed by the statement's formula, yields the returned table for every choice.",
         note="Partial: n ranges as C04. Paths with several successful comparisons are covered by the last-success index only (decoder depends only on the final index). Trusted: " + TB),
     "C08": dict(cat="other", ref="3 C08", technique="abstract summary of Ord::cmp on symbolic tables (reversed word views, lexicographic); per-path word-level terms of the successor kernel; iterator typestate by abstract interpretation",
-        text="Ord::cmp of both types compares the two tables word for word, most significant word first, as unsigned integers (Lut: variable count first); PartialOrd forwards to it (a comparison written as control flow - compare a block, return on difference - is recognised and summarised the same way). The iterator hands out a copy of the current table, steps it by (w+1)&mask per word with carry into the next word exactly on wrap-around, clears its flag exactly when all words wrapped, and yields None afterwards; all_functions starts at zero.",
+        text="Ord::cmp of both types compares the two tables word for word, most significant word first, as unsigned integers (Lut: variable count first); PartialOrd forwards to it (a comparison written as control flow - compare a block, return on difference - is recognised and summarised the same way). The iterator hands out a copy of the current table, steps it by (w+1)&mask per word with carry into the next word exactly on wrap-around, clears its flag exactly when all words wrapped, and yields None afterwards with the flag still off on every path of that call (an exhausted iterator polled again stays exhausted); all_functions starts at zero.",
         note="Not decided: the induction from the per-step facts to 'every function exactly once', transitivity of integer order, agreement with hex order (C09). Trusted: " + TB + "; multiword-increment lemma."),
     "C10": dict(cat="proof", ref="3 C10", technique="type-level facts (aliases, API parity) + differential abstract interpretation of Lut vs StaticLut methods on identical symbolic inputs (uninterpreted functions for unmodelled read-only kernels) + bitflow on conversions",
         text="All 13 aliases tie N to max(1,2^N/64) blocks and are exported; every public method/trait impl has its counterpart; for every common method, n and valid argument partition the abstract results of Lut and StaticLut on the same symbolic table are identical; TryFrom fails exactly on a different variable count and copies blocks verbatim, From copies verbatim, integer conversions map bit m to f(m) with matching widths. bdd_complexity: both types hand the same arguments to the counting kernel, and with the kernel interpreted on tables of 1-3 variables both return the same count for every choice of [f], [f,f], [f,!f], [f,g].",
         note="Trusted: " + TB + "; read-only kernels that are not modelled (formatting, BDD counting) are treated as uninterpreted functions of their abstract arguments. Compile-fail witnesses W2/W3 run in the thorough tier."),
     "C19": dict(cat="other", ref="3 C19", technique="bit-provenance by abstract interpretation: every result bit is traced to a distinct fresh generator bit or the constant 0; who-may-construct rule with a backward slice of the seed operand of every explicitly seeded generator (MIR def-use, statics named by the driver)",
-        text="In random() of both types every table bit below 2^n is a copy of a distinct bit of a fresh next_u64 draw from rand::thread_rng (one draw per word), every bit at or above 2^n is constant 0, the crate has no static state (both build configurations), and the function disappears without the rand feature (thorough). Any explicitly seeded generator (seed_from_u64/from_seed/..::new) built per call or per thread whose seed derives only from constants and write-once statics is a violation (same stream for every call / thread).",
+        text="In random() of both types every table bit below 2^n is a copy of a distinct bit of a fresh next_u64 draw from rand::thread_rng (one draw per word), every bit at or above 2^n is constant 0, the crate has no static state (both build configurations), and the function disappears without the rand feature (thorough). Histories: random() is called repeatedly on one abstract state (thread_local storage is part of it) and no draw may hand out a generator bit an earlier draw of the history handed out. Any explicitly seeded generator (seed_from_u64/from_seed/..::new) built per call or per thread whose seed derives only from constants and write-once statics is a violation (same stream for every call / thread).",
         note="Not decided: statistical quality/independence of rand's generator (trusted dependency)."),
 })
 
@@ -58,7 +58,7 @@ TOK = "token-level abstract interpretation (strings / formatter output as token 
 OPQ = "abstract interpretation of the container code on symbolic containers of fixed small length whose element methods are opaque predicates"
 CHECKS.update({
     "C09": dict(cat="other", ref="3 C09", technique=TOK + " for the printers; abstract interpretation of the parser on symbolic strings partitioned by length, with a summary of u64::from_str_radix; window-mode abstract interpretation on byte strings with symbolic bytes (digit decoding modelled bit-exactly), summary evaluated on every byte value",
-        text="to_hex_string/to_bin_string emit one zero-padded lower-hex/binary token per word, most significant word first, with the specified per-word width; Display/LowerHex/Binary wrap them as Lut<n>(...). from_hex_string: wrong lengths and non-ASCII text only reach Err, no path panics (slicing guarded), on every Ok path each chunk passed an all-hex-digits test before from_str_radix (which accepts '+'), lands in the matching word and fits in 2^n bits. Byte windows (both build configurations): with one or two symbolic bytes among '0' characters, the parser's summary evaluated on every byte value gives Ok(the denoted table) exactly for lower-case/decimal digits that fit, Err or the same table for upper-case A-F, Err for everything else, and never panics.",
+        text="In both build configurations, to_hex_string/to_bin_string emit one zero-padded lower-hex/binary token per word, most significant word first, with the specified per-word width; Display/LowerHex/Binary wrap them as Lut<n>(...). from_hex_string: wrong lengths and non-ASCII text only reach Err, no path panics (slicing guarded), on every Ok path each chunk passed an all-hex-digits test before from_str_radix (which accepts '+'), lands in the matching word and fits in 2^n bits. Byte windows (both build configurations): with one or two symbolic bytes among '0' characters, the parser's summary evaluated on every byte value gives Ok(the denoted table) exactly for lower-case/decimal digits that fit, Err or the same table for upper-case A-F, Err for everything else, and never panics.",
         note="Not decided: that core::fmt renders the value's digits (trusted std), upper-case acceptance. n in 0..12."),
     "C12": dict(cat="other", ref="3 C12", technique="lane abstraction: conditions/results of the 32-lane cube code are shown to be uniform per-lane predicates/functions and compared with the semantic specification on every non-empty set of lane values; shift constructors by bitflow in 32-bit word mode",
         text="value, is_zero/is_one/is_constant, implies, intersects, all four & forms, from_mask and derived equality are exact for all canonical cubes at once (32 lanes, symbolic), contradictory products are the one canonical zero; minterm is exact for every num_vars in 0..=32 with a symbolic assignment; nth_var/nth_var_inv/one/zero as specified.",
